@@ -28,7 +28,8 @@ RULE = ("job = seed -> family in {rsa, cache, verifierdb, cache_seq}.  rsa: "
         "interleaving); non-trivial = >= 1 context switch happened inside an "
         "operation (concurrent families) / >= 1 expiry or eviction happened "
         "(cache_seq)"
-        ' Verifier-db histories include stores the database must refuse (it has to stay usable).')
+        ' Verifier-db histories include stores the database must refuse (it has to stay usable).'
+        ' rsa family: keys loaded from PEM or generated in-process (reference: a second key object built from the same integers), decryption of invalid-padding ciphertexts (implicit rejection is a deterministic function of key and ciphertext); pre-emption points also in rsakey.py.')
 LEVEL_TEXT = ("Seeded schedule search with real threads parked at intercepted "
               "points (line events + SimLock), one runnable at a time, so "
               "every interleaving replays exactly.  Bounded: <= 3 threads, "
@@ -42,6 +43,7 @@ LEVEL_NOTE = ("Trusted: the baton scheduler, model/linz.py, the sequential "
 BUDGET = {"quick": 300, "thorough": 1200}
 CHUNK = 8
 PROBES = ["rsa", "cache", "verifierdb", "cache_seq", "lock_contended",
+          "generated_key", "decrypt_invalid_padding",
           "policy_random", "policy_pct", "policy_rr", "expired", "evicted",
           "duplicate_id", "invalidated", "three_threads"]
 COMPONENTS_REAL = ["Python_RSAKey (blinding state + lock), SessionCache, "
@@ -54,7 +56,8 @@ ASSUMPTIONS = ["pre-emption points = line events in the watched files and "
 
 FAMS = ["rsa", "cache", "verifierdb", "cache_seq", "cache", "verifierdb",
         "verifierdb", "verifierdb", "cache", "verifierdb"]
-WATCH = ("tlslite/utils/python_rsakey.py", "tlslite/sessioncache.py",
+WATCH = ("tlslite/utils/python_rsakey.py", "tlslite/utils/rsakey.py",
+         "tlslite/sessioncache.py",
          "tlslite/basedb.py", "tlslite/verifierdb.py")
 
 
@@ -179,6 +182,15 @@ def run(job, streams=None):
 def run_rsa(ch, seed, v, probes):
     chain, key = creds.fresh("server", "rsa")
     _, refkey = creds.fresh("server", "rsa")
+    if ch.draw(3, "rsa.keysrc") == 1:
+        # a key made in-process; the reference is a second key object
+        # built from the same integers (what saving and reloading gives)
+        from tlslite.utils.keyfactory import generateRSAKey
+        from tlslite.utils.python_rsakey import Python_RSAKey
+        key = generateRSAKey(1024, ["python"])
+        refkey = Python_RSAKey(key.n, key.e, key.d, key.p, key.q, key.dP,
+                               key.dQ, key.qInv)
+        probes["generated_key"] = 1
     sched, pol = new_sched(ch)
     probes["policy_" + pol] = 1
     key._lock = threads.SimLock(sched, "rsa")
@@ -191,7 +203,8 @@ def run_rsa(ch, seed, v, probes):
     for t in range(nthr):
         ops = []
         for k in range(1 + ch.draw(2, "rsa.nops")):
-            kind = ["sign", "decrypt", "raw"][ch.draw(3, "rsa.kind")]
+            kind = ["sign", "decrypt", "raw", "decrypt_bad", "decrypt_bad"][
+                ch.draw(5, "rsa.kind")]
             data = hashlib.sha256(b"%d:%d:%d" % (seed, t, k)).digest()
             ops.append((kind, data))
         plans.append(ops)
@@ -211,10 +224,23 @@ def run_rsa(ch, seed, v, probes):
         for k, (kind, data) in enumerate(ops):
             if kind == "decrypt":
                 cts[(t, k)] = bytes(refkey.encrypt(bytearray(data)))
+    # ciphertexts with invalid padding: decryption is still a deterministic
+    # function of (key, ciphertext) - the implicit-rejection message
+    kbytes = (n.bit_length() + 7) // 8
+    for t, ops in enumerate(plans):
+        for k, (kind, data) in enumerate(ops):
+            if kind == "decrypt_bad":
+                c = int.from_bytes(hashlib.sha512(data).digest() * 4,
+                                   "big") % n
+                cts[(t, k)] = c.to_bytes(kbytes, "big")
+                probes["decrypt_invalid_padding"] = 1
     want = {}
     for t, ops in enumerate(plans):
         for k, (kind, data) in enumerate(ops):
-            if kind == "sign":
+            if kind == "decrypt_bad":
+                r_ = refkey.decrypt(bytearray(cts[(t, k)]))
+                want[(t, k)] = bytes(r_) if r_ is not None else None
+            elif kind == "sign":
                 want[(t, k)] = bytes(refkey.sign(bytearray(data), "pkcs1",
                                                  "sha256"))
             elif kind == "decrypt":
@@ -231,7 +257,7 @@ def run_rsa(ch, seed, v, probes):
                     if kind == "sign":
                         r = bytes(key.sign(bytearray(data), "pkcs1",
                                            "sha256"))
-                    elif kind == "decrypt":
+                    elif kind in ("decrypt", "decrypt_bad"):
                         r = key.decrypt(bytearray(cts[(t, k)]))
                         r = bytes(r) if r is not None else None
                     else:
